@@ -394,6 +394,12 @@ impl Allocator for Arena {
 
   #[inline]
   unsafe fn dealloc(&self, offset: u32, size: u32) -> bool {
+    #[cfg(al8n_rarena_verif)]
+    crate::verif::api_event(crate::verif::ApiEvent::Dealloc {
+      sync: true,
+      offset,
+      size,
+    });
     // first try to deallocate the memory back to the main memory.
     let header = self.header();
     // if the offset + size is the current allocated size, then we can deallocate the memory back to the main memory.
@@ -1699,6 +1705,54 @@ impl Drop for Arena {
       // Relaxed is enough here as we're in a drop, no one else can
       // access this memory anymore.
       memory.unmount();
+    }
+  }
+}
+
+#[cfg(al8n_rarena_verif)]
+impl Arena {
+  /// Addresses of the shared words (verification only).
+  pub fn verif_addrs(&self) -> crate::verif::Addrs {
+    let header = self.header();
+    unsafe {
+      crate::verif::Addrs {
+        base: self.ptr as usize,
+        cap: self.cap as usize,
+        cursor: &header.allocated as *const _ as usize,
+        discarded: &header.discarded as *const _ as usize,
+        min_segment_size: &header.min_segment_size as *const _ as usize,
+        sentinel: &header.sentinel as *const _ as usize,
+        refs: self.inner.as_ref().refs() as *const _ as usize,
+      }
+    }
+  }
+
+  /// Bounded walk of the free list without reporting the accesses (verification only).
+  pub fn verif_freelist_snapshot(&self, max: usize) -> crate::verif::FreelistSnapshot {
+    let mut out = std::vec::Vec::new();
+    let header = self.header();
+    let (_, mut next) = decode_segment_node(header.sentinel.peek());
+    while next != SENTINEL_SEGMENT_NODE_OFFSET {
+      if out.len() >= max || next as u64 + 8 > self.cap as u64 || next % 8 != 0 {
+        return (out, true);
+      }
+      let (size, nn) = decode_segment_node(self.get_segment_node(next).peek());
+      out.push((next, size, nn));
+      next = nn;
+    }
+    (out, false)
+  }
+
+  /// Observers: read the header words without reporting the accesses (verification only).
+  pub fn verif_peek(&self) -> (u32, u32, u32, usize) {
+    let header = self.header();
+    unsafe {
+      (
+        header.allocated.peek(),
+        header.discarded.peek(),
+        header.min_segment_size.peek(),
+        self.inner.as_ref().refs().peek(),
+      )
     }
   }
 }
